@@ -119,3 +119,11 @@ pub fn uniform(seed: u64, n: usize, p: usize, side: f64) -> Array2<f64> {
     let mut r = SplitMix(seed ^ 0x0f1f);
     Array2::from_shape_fn((n, p), |_| side * r.unit())
 }
+
+/// `distinct` different Gaussian rows, row i of the result = distinct row (i mod distinct): many exact
+/// duplicates that are not all the same row (distinct = 1: every row equal).
+pub fn few_distinct(seed: u64, n: usize, p: usize, distinct: usize) -> Array2<f64> {
+    let d = distinct.max(1);
+    let base = gaussian(seed ^ 0xd15, d, p);
+    Array2::from_shape_fn((n, p), |(i, j)| base[(i % d, j)])
+}
